@@ -57,6 +57,23 @@ func main() {
 	opts := &stack.Opts{NameArguments: true, GuessPaths: true, LocalGOROOT: runtime.GOROOT(), LocalGOPATHs: []string{"/nonexistent/gp", "/nonexistent/a/longer/gopath", "/nonexistent/mid/gp"}}
 	shared, _, _ := stack.ScanSnapshot(strings.NewReader(dumps[0]), io.Discard, opts)
 	levels := []stack.Similarity{stack.ExactFlags, stack.ExactLines, stack.AnyPointer, stack.AnyValue}
+	// a snapshot augmented from sources on disk: a call with more argument words than the runtime
+	// prints (elided) whose arguments carry the typed rendering, shared by all renderers
+	tmp, err := os.MkdirTemp("", "verif-c14race-")
+	if err != nil {
+		fmt.Println("DRIVER-FAILED cannot create a temporary directory:", err)
+		os.Exit(4)
+	}
+	src := "package main\n\nfunc many(a, b, c, d, e, f, g, h, i, j, k, l int) {\n\tpanic(a)\n}\n\nfunc main() {\n\tmany(1, 2, 3, 4, 5, 6, 7, 8, 9, 10, 11, 12)\n}\n"
+	os.WriteFile(tmp+"/main.go", []byte(src), 0o600)
+	dumpSrc := fmt.Sprintf("goroutine 1 [running]:\nmain.many(0x1, 0x2, 0x3, 0x4, 0x5, 0x6, 0x7, 0x8, 0x9, 0xa, ...)\n\t%s/main.go:4 +0x1\nmain.main()\n\t%s/main.go:8 +0x2\n\n", tmp, tmp)
+	optsSrc := &stack.Opts{NameArguments: true, GuessPaths: true, AnalyzeSources: true, LocalGOROOT: runtime.GOROOT(), LocalGOPATHs: []string{"/nonexistent/gp"}}
+	sharedSrc, _, _ := stack.ScanSnapshot(strings.NewReader(dumpSrc), io.Discard, optsSrc)
+	os.RemoveAll(tmp)
+	if sharedSrc == nil || len(sharedSrc.Goroutines) != 1 || len(sharedSrc.Goroutines[0].Stack.Calls[0].Args.Processed) == 0 || !sharedSrc.Goroutines[0].Stack.Calls[0].Args.Elided {
+		fmt.Println("DRIVER-FAILED the augmented snapshot has no typed rendering of an elided argument list")
+		os.Exit(4)
+	}
 	// concurrent phase first (so that lazily initialised shared state, if any,
 	// is first touched concurrently), sequential reference afterwards
 	type res struct{ key, out string }
@@ -70,11 +87,12 @@ func main() {
 			for it := 0; it < 6; it++ {
 				li := (w + it) % 4
 				o := render(shared, levels[li])
+				os3 := render(sharedSrc, levels[li])
 				di := (w*7 + it) % len(dumps)
 				s, _, _ := stack.ScanSnapshot(strings.NewReader(dumps[di]), io.Discard, opts)
 				o2 := render(s, levels[li])
 				mu.Lock()
-				got = append(got, res{fmt.Sprint("shared", li), o}, res{fmt.Sprint(di, li), o2})
+				got = append(got, res{fmt.Sprint("shared", li), o}, res{fmt.Sprint(di, li), o2}, res{fmt.Sprint("sharedSrc", li), os3})
 				mu.Unlock()
 			}
 		}(w)
@@ -83,6 +101,7 @@ func main() {
 	ref := map[string]string{}
 	for li, l := range levels {
 		ref[fmt.Sprint("shared", li)] = render(shared, l)
+		ref[fmt.Sprint("sharedSrc", li)] = render(sharedSrc, l)
 	}
 	for di, d := range dumps {
 		s, _, _ := stack.ScanSnapshot(strings.NewReader(d), io.Discard, opts)
